@@ -118,6 +118,13 @@ class C11(Check):
                 order.append([oi, ptr[oi]])
                 ptr[oi] += 1
             cases.append({'objects': objs, 'schedule': order})
+        # object-typed variables: the formula reads one field of the object it writes its result to; the caller's objects must stay as they were
+        for kind in ('discrete-online', 'dense-online', 'discrete-offline', 'dense-offline'):
+            for body in ('once(xa.value >= 1)', 'xa.value >= 1', 'historically[0,1](xa.value >= 1)'):
+                n = 3
+                cols = fml.gen_trace(rng, 1, n)
+                o = {'monitor': kind, 'vars': ['xa'], 'objvars': ['xa'], 'spec': 'xa.other = ' + body, '_f': 'objects', 'calls': calls_for(kind, ('var', 0), cols, list(range(n)), n)}
+                cases.append({'objects': [o], 'schedule': [[0, ci] for ci in range(len(o['calls']))]})
         # an offline object that has evaluated a complete data set is handed one that lacks a column / a signal: the outcome must be
         # that of a fresh object (an exception), not values computed with the data of the earlier call
         X, Y = ('pred', 'geq', ('var', 0), ('const', 1)), ('pred', 'leq', ('var', 1), ('const', 2))
